@@ -4,6 +4,7 @@ package vos
 
 import (
 	"io"
+	"io/fs"
 	"os"
 	"time"
 
@@ -135,6 +136,47 @@ func WriteFile(name string, data []byte, perm FileMode) error {
 	}
 	return os.WriteFile(name, data, perm)
 }
+
+// ReadDir lists the stack directory (entries sorted by name).
+func ReadDir(name string) ([]DirEntry, error) {
+	if rt.E != nil {
+		fis, err := rt.E.ReadDir(name)
+		if err != nil {
+			return nil, err
+		}
+		out := make([]DirEntry, len(fis))
+		for i, fi := range fis {
+			out[i] = fs.FileInfoToDirEntry(fi)
+		}
+		return out, nil
+	}
+	return os.ReadDir(name)
+}
+
+func RemoveAll(name string) error {
+	if rt.E != nil {
+		if err := rt.E.Remove(name); err != nil && !os.IsNotExist(err) {
+			return err
+		}
+		return nil
+	}
+	return os.RemoveAll(name)
+}
+
+func Chmod(name string, mode FileMode) error {
+	if rt.E != nil {
+		_, err := rt.E.Stat(name)
+		return err
+	}
+	return os.Chmod(name, mode)
+}
+
+func IsPermission(err error) bool { return os.IsPermission(err) }
+func IsTimeout(err error) bool    { return os.IsTimeout(err) }
+func TempDir() string             { return os.TempDir() }
+func Hostname() (string, error)   { return "verif", nil }
+
+var ErrPermission = os.ErrPermission
 
 func MkdirAll(path string, perm FileMode) error {
 	if rt.E != nil {
